@@ -186,6 +186,13 @@ def ext_stage(ctx, ob, pid):
         if v["ok"]:
             ob["discharged"].append("ExtTie." + k)
             ob["axioms"].update(v.get("axioms") or [])
+    if pid == "C10":
+        # a hand-written Clone / PartialEq of a type under the tie that no theorem speaks about (extract_units.unmodelled_impls)
+        unmod = {f"{u}.{fn}": msg for u, r in res["report"].items() if isinstance(r, dict) for fn, msg in (r.get("unmodelled") or {}).items()}
+        info["unmodelled"] = unmod
+        for k, msg in sorted(unmod.items()):
+            ob["obligations"].append("ExtTie." + k)
+            ob["broken"].append(("ExtTie." + k, msg))
     suspects = broken + missing
     if not suspects:
         return info
